@@ -285,6 +285,19 @@ def config_part(ctx, w, defaults, scratch, ids):
                 given[k] = rng.choice([0o600, 0o640, 0o644, 0o400, 0o660, 0o604, rng.randint(0, 0o777)]) if k.endswith("mode") \
                     else rng.choice(users if k.endswith("user") else groups)
         cfg["global"].update(given)
+        # half of the configurations are split over two files: an included file with its own [global]
+        # table overrides a random subset of the options (a later-included value wins)
+        if n % 2 == 1:
+            inc = {}
+            for k in OPTS:
+                if rng.random() < 0.5 and (k.endswith("mode") or os.geteuid() == 0):
+                    inc[k] = rng.choice([0o600, 0o640, 0o644, 0o400, 0o660, 0o604]) if k.endswith("mode") \
+                        else rng.choice(users if k.endswith("user") else groups)
+            if inc:
+                cfg["include"] = ["inc.toml"]
+                cfggen.write(os.path.join(root, "inc.toml"), {"global": inc})
+                given = dict(given, **inc)
+                ctx.count("config:split-over-two-files")
         path = cfggen.write(os.path.join(root, "acmed.toml"), cfg)
         ops.append({"op": "config_load", "path": path, "dump": True})
         metas.append((pat, given, cfg))
